@@ -884,7 +884,7 @@ static void run_stream(struct outcome *o)
 	ANY_DEV = false;
 	SEND_UNINIT = false;
 	tables_build(0x2b, true);
-	memset(SOCK, 0, sizeof(*SOCK));
+	memset(SOCK, 0xA5, sizeof(*SOCK)); /* rtr_init has to initialise every field itself */
 	rtr_init(SOCK, &ENV_TR, &PFX, &SPKI, 3600, 7200, 600, RTR_INTERVAL_MODE_IGNORE_ANY, NULL, NULL, NULL);
 	SOCK->session_id = SESSION;
 	SOCK->request_session_id = false;
@@ -1604,7 +1604,7 @@ static void run_resp_once(void)
 	R_PHASE = 0;
 	R_ESTABLISHED_AFTER = R_FAULTED = R_HAVE_NEXTQ = false;
 	tables_build(0, true);
-	memset(SOCK, 0, sizeof(*SOCK));
+	memset(SOCK, 0xA5, sizeof(*SOCK)); /* rtr_init has to initialise every field itself */
 	rtr_init(SOCK, &ENV_TR, &PFX, &SPKI, 3, 7200, 1, RTR_INTERVAL_MODE_IGNORE_ANY, r_on_state, NULL, NULL);
 	if (env_fsm_start_and_wait(SOCK) != PARK_HORIZON) {
 		fprintf(stderr, "HARNESS-ABORT unexpected park reason\n");
